@@ -2,6 +2,7 @@
    keys does not depend on the order of the input, data / header / trajectory rows stay together. *)
 From MrVerif Require Import Base.Prelude Model.KLoad.
 From Coq Require Import Permutation Sorted.
+From Coq Require String.
 
 (* ---- lexicographic order ------------------------------------------------------------------------------------------- *)
 Lemma lex_leb_refl a : lex_leb a a = true.
@@ -400,3 +401,15 @@ Proof.
   clear Hn. vm_compute in H.
   repeat (destruct H as [H|H]; [subst n; vm_compute; reflexivity|]). contradiction.
 Qed.
+
+(* ---- the bookkeeping tables agree with what the model computes with ------------------------------------------------- *)
+Module TablesProof.
+Import String.
+Definition tables_statement : Prop :=
+  other_labels = skipn 2 sort_labels /\ firstn 2 sort_labels = [L_k1; L_k2] /\
+  FlagTable.mask_of FlagTable.acq_flag_table FlagTable.ignore_flag_names = DEFAULT_IGNORE_FLAGS /\
+  FlagTable.lookup_flag FlagTable.acq_flag_table "ACQ_IS_REVERSE"%string = ACQ_IS_REVERSE /\
+  FlagTable.lookup_flag FlagTable.acq_flag_table "ACQ_IS_NOISE_MEASUREMENT"%string = ACQ_IS_NOISE_MEASUREMENT.
+Lemma tables_consistent : tables_statement.
+Proof. unfold tables_statement. repeat split; vm_compute; reflexivity. Qed.
+End TablesProof.
